@@ -132,6 +132,7 @@ def stepC05 (u : Unit) (line : String) : Unit × String :=
       let a := Flat.run code fuel frame0
       let b := Ref.run s fuel frame0
       if showRes a == showRes b then (u, showRes a) else (u, "MODEL-SPLIT flat=" ++ showRes a ++ " ref=" ++ showRes b)
+  | "gosrc" => (u, "unmodelled")   -- select / type switch / map, channel ranges / closures: interpreter vs compiled Go only
   | "code" =>
     let (l, _) := parseList (tokenize arg) []
     (u, toString (repr (compileTop (toList l))))
